@@ -32,7 +32,7 @@ ENGINES = [
      "serves_properties": ["C16", "C20"],
      "kind_free_text": "T.81 B / T.87 C / T.800 A marker-segment grammars as a TLA+ walker; T.800 Annex C MQ coder machine; "
                        "TLC validates every stream the encoders emit and every MQ register trajectory"},
-    {"name": "dwt", "path": "spec/Dwt53.tla spec/MC_Dwt53.tla spec/T1.tla spec/MC_T1.tla spec/C20Trace.tla",
+    {"name": "dwt", "path": "spec/Dwt53.tla spec/MC_Dwt53.tla spec/T1.tla spec/MC_T1.tla spec/T1Gen.tla spec/C20Trace.tla",
      "serves_properties": ["C20"],
      "kind_free_text": "T.800 Annex F 5/3 lifting with absolute-coordinate symmetric extension, multi-level Mallat layout, Annex G RCT; "
                        "perfect reconstruction model-checked; trace validation of wavelet/colorspace/t1 calls"},
